@@ -1,6 +1,6 @@
 """C03 — label references: bookkeeping / ordering clauses (DESIGN.md section 3 / C03)."""
 import re
-from lib import cfg, core, labelvalid
+from lib import cfg, core, labelvalid, pcrel
 from lib.cfg import forward
 from lib.must import Must, branch_atoms
 
@@ -131,6 +131,9 @@ def run(chk):
     last_ret = [r for _, _, r in bl.return_sites()][-1:]
     # ---------------------------------------------------------------- C03.f OffsetFormat literal tuples
     offset_format_rule(chk)
+    # ---------------------------------------------------------------- C03.e' pc-relative displacements account for the trailing immediate
+    fx = chk.facts("asmjit/x86/x86assembler.cpp", funcs=r"x86::Assembler::_emit$")
+    pcrel.run(chk, cfg.find_fn(fx, "x86::Assembler::_emit"), "asmjit/x86/x86assembler.cpp")
 
     return chk.finish(
         level="other",
